@@ -299,6 +299,74 @@ theorem C16_cm_composes (st : IState) (a b c d e f : Rat) (p : Point) :
   simp only [cmPremultiplies, if_true, mult_matrix, apply_matrix_pt, Prod.mk.injEq]
   constructor <;> grind
 
+/-! ## Round 6: one shape per sub-path; attributes and the no-`m` rule for ANY path -/
+
+/-- Exactly one shape per painted sub-path with at least one segment (any number of sub-paths, closed or not,
+`re` or `m …`, any painting operator): the number of shapes with a segment equals the number of such
+sub-paths. -/
+theorem C16_one_shape_per_subpath (g : SGState) (st fi eo : Bool) (sps : List SubPath) (stp : Point)
+    (hok : okFrom stp false sps) :
+    ((paintPath g.ctm (argsOf g st fi eo) (enc sps)).filter hasSeg).length =
+      (sps.filter (fun sp => !sp.segs.isEmpty)).length := by
+  rw [C16_paint_path g st fi eo sps stp hok, shapeOf_count]
+
+/-- For EVERY `curpath` whatsoever (ill-formed included: segments before any `m`, `h` first, several `m`)
+and every matrix: each shape `paint_path` creates carries the stroke / fill / even-odd flags of the call and
+the line width, dash pattern, stroking and non-stroking colour of the graphics state passed to it. -/
+theorem C16_paint_attributes (ctm : Matrix) (a : PaintArgs) (path : List PSeg) :
+    ∀ s ∈ paintPath ctm a path,
+      s.stroke = a.stroke ∧ s.fill = a.fill ∧ s.evenodd = a.evenodd ∧ s.linewidth = a.gs.linewidth ∧
+      s.dash = a.gs.dash ∧ s.scolor = a.gs.scolor ∧ s.ncolor = a.gs.ncolor :=
+  paintPath_attrs ctm a path
+
+/-- The same through the interpreter's dispatch: whatever a painting operator adds to the page carries the
+graphics state in force at that moment and the operator's flags from the regenerated table `paintOps`
+(= ISO table 60 by `C16_paint_flags`) - on ANY interpreter state (any path, any operand stack). -/
+theorem C16_painted_with_state_in_force (k : OpK) (hk' : k ∈ [OpK.S, .s, .f, .F, .fstar, .B, .Bstar, .b, .bstar])
+    (cl x y z : Bool) (hk : paintOps.lookup k.name = some (cl, x, y, z)) (st : IState) :
+    ∃ st' new, doOp k st = .ok st' ∧ st'.out = st.out ++ new ∧
+      ∀ s ∈ new, s.linewidth = st.gs.linewidth ∧ s.dash = st.gs.dash ∧ s.scolor = st.gs.scolor ∧
+        s.ncolor = st.gs.ncolor ∧ s.stroke = x ∧ s.fill = y ∧ s.evenodd = z := by
+  have hH : ∀ s : IState, (doH s).gs = s.gs ∧ (doH s).out = s.out := by
+    intro s; unfold doH; split <;> exact ⟨rfl, rfl⟩
+  have key : ∀ (s0 : IState), ∀ s ∈ paintPath s0.ctm ⟨s0.gs, x, y, z⟩ s0.curpath,
+      s.linewidth = s0.gs.linewidth ∧ s.dash = s0.gs.dash ∧ s.scolor = s0.gs.scolor ∧ s.ncolor = s0.gs.ncolor ∧
+      s.stroke = x ∧ s.fill = y ∧ s.evenodd = z := by
+    intro s0 s hs
+    obtain ⟨h1, h2, h3, h4, h5, h6, h7⟩ := paintPath_attrs _ _ _ s hs
+    exact ⟨h4, h5, h6, h7, h1, h2, h3⟩
+  have hcall : doOp k st = .ok (doPaint (if cl = true then doH st else st) x y z) := by
+    simp only [List.mem_cons, List.mem_nil_iff, or_false] at hk'
+    rcases hk' with rfl | rfl | rfl | rfl | rfl | rfl | rfl | rfl | rfl <;>
+      (rw [doOp_call0 _ (by decide)]; simp only [call, hk])
+  refine ⟨_, paintPath (if cl = true then doH st else st).ctm ⟨(if cl = true then doH st else st).gs, x, y, z⟩
+    (if cl = true then doH st else st).curpath, hcall, ?_, ?_⟩
+  · cases cl
+    · rfl
+    · show (doH st).out ++ _ = st.out ++ _
+      rw [(hH st).2]
+  · intro s hs
+    have := key _ s hs
+    cases cl
+    · exact this
+    · simp only [if_true] at this
+      rw [(hH st).1] at this
+      exact this
+
+/-- Segments that do not belong to a sub-path begun by `m` / `re` (the path does not start with `m`) are
+never painted - and the painting operator still clears them (`C16_paint_frame`). -/
+theorem C16_no_start_no_shape (ctm : Matrix) (a : PaintArgs) (path : List PSeg)
+    (h : ∀ p rest, path ≠ PSeg.m p :: rest) : paintPath ctm a path = [] :=
+  paintPath_no_m ctm a path h
+
+example : paintPath (1, 0, 0, 1, 0, 0) (argsOf cexG true true false) [.l (1, 1), .l (2, 2), .h] = [] ∧
+    (paintPath (2, 0, 0, 2, 0, 0) (argsOf cexG true true false)
+      (enc [cexRect, { start := (5, 5), segs := [], closed := true }, { start := (1, 1), segs := [.l (1, 1)], closed := false }])).map
+        (fun s => (s.kind, s.pts, s.stroke, s.fill)) =
+      [(.rect, [(0, 0), (0, 2), (4, 2), (4, 0)], true, true), (.curve, [(10, 10), (10, 10)], true, true),
+       (.line, [(2, 2), (2, 2)], true, true)] := by
+  refine ⟨by decide +kernel, by decide +kernel⟩
+
 /-! ## Frame rules: clipping does not paint; painting touches nothing but the path and the output -/
 
 /-- `W` / `W*` (empty bodies in pdfinterp.py, checked by the translator) are no-ops of the interpreter:
